@@ -1211,6 +1211,15 @@ class X:
         if fn == 'zeros_like':
             v = args[0]
             return Arr(v.shape, lambda *i: 0, v.dtype, 'fresh')
+        if fn in ('floor', 'ceil'):
+            v = args[0]
+            if isinstance(v, Arr):
+                raise Unsupported('np.%s of an array' % fn)
+            zv = Z(v)
+            if zv.is_int():
+                return zv
+            # numpy returns a float with an integral value; kept as the integer so that int(...) is exact (A-real)
+            return z3.ToInt(zv) if fn == 'floor' else -z3.ToInt(-zv)
         if fn == 'count_nonzero':
             v = args[0]
             if not isinstance(v, Arr):
